@@ -315,6 +315,14 @@ class Interp:
                 if i in base:
                     return base[i]
                 raise Undecided("map index %r absent (a panic in the analysed code)" % (i,))
+            if isinstance(base, (list, str)) and isinstance(i, tuple) and len(i) == 4 and i[0] in ("range", "slice"):
+                lo = 0 if i[1] is None else i[1]
+                hi = len(base) if i[2] is None else (i[2] + 1 if i[3] else i[2])
+                if all(isinstance(x, int) and not isinstance(x, bool) for x in (lo, hi)):
+                    if 0 <= lo <= hi <= len(base) and (not isinstance(base, str) or base.isascii()):
+                        return base[lo:hi]
+                    if not (0 <= lo <= hi <= len(base)):
+                        raise Undecided("slice %d..%d out of bounds of %r (a panic in the analysed code)" % (lo, hi, base))
             if self.call is not None:
                 r = self.call(n, base, [i], self, env)
                 if r is not None:
@@ -441,6 +449,9 @@ class Interp:
             if short(n.get("res", ""), 1) == "Range":
                 fs = {f["name"]: self.ev(f["e"], env) for f in n["fields"]}
                 return ("range", fs["start"], fs["end"], False)
+            if short(n.get("res", ""), 1) in ("RangeTo", "RangeFrom", "RangeFull", "RangeToInclusive") and str(n.get("res", "")).startswith("core::ops::range"):
+                fs = {f["name"]: self.ev(f["e"], env) for f in n["fields"]}
+                return ("slice", fs.get("start"), fs.get("end"), short(n["res"], 1) == "RangeToInclusive")
             # a struct literal is a dictionary of its fields; `..base` supplies the rest when it evaluates to a dictionary
             d = {}
             if n.get("base") is not None:
